@@ -1,0 +1,28 @@
+/*
+ * Verification hook (compiled only with `--cfg vigna_sux_rs_verif`).
+ *
+ * SPDX-License-Identifier: Apache-2.0 OR LGPL-2.1-or-later
+ */
+
+//! Scheduling points for external schedulers.
+//!
+//! The atomic methods of [`AtomicBitVec`](crate::bits::AtomicBitVec) and
+//! [`AtomicBitFieldVec`](crate::bits::AtomicBitFieldVec) call
+//! [`sched_point`] immediately before every atomic load, store,
+//! read-modify-write or compare-and-swap. A test harness can install a
+//! callback that serialises threads, so that interleavings of the atomic
+//! operations can be enumerated deterministically. Without an installed
+//! callback a scheduling point does nothing.
+
+use std::sync::OnceLock;
+
+/// The callback invoked at every scheduling point.
+pub static SCHED: OnceLock<fn()> = OnceLock::new();
+
+/// A scheduling point.
+#[inline]
+pub fn sched_point() {
+    if let Some(f) = SCHED.get() {
+        f()
+    }
+}
